@@ -571,6 +571,8 @@ def gen_sequence(rng, n, start_counter=0):
         cnt += 1
         r = gen_request(rng, t, cnt)
         touched = [(r.src, False)]
+        for k in sorted(subtree(t, r.src))[1:4]:        # members of a collection that is deleted / moved / copied
+            touched.append((k, False))
         if r.dst and r.dst[0] == "ok":
             d = r.dst[1]
             touched.append((d, False))
